@@ -14,6 +14,7 @@
 From IV Require Import Base.Word Base.F64 Model.Ntp Model.SenderStream Model.StatsRecorder Model.StatsKernels
   Proofs.NtpFloatProofs Proofs.ReportFloatProofs Proofs.StatsFloatProofs.
 From Coq Require Import ZArith Reals.
+From Flocq Require Import Core.Core.
 Open Scope Z_scope.
 
 (* ---------- round-trip time ---------- *)
@@ -91,3 +92,26 @@ Theorem C19_units_kernel_within_one_tick : forall rate ns,
   exact < 4294967294 -> Z.abs (sk_units rate ns - exact) <= 1.
 Proof. exact sk_units_within_one_tick. Qed.
 Print Assumptions C19_units_kernel_within_one_tick.
+
+(* ---------- inbound jitter update  Jitter += (1.0/16.0) * (float64(d)/clockRate - Jitter) ---------- *)
+(* for every finite accumulator 0 <= J <= 2^54 (seconds), every 0 <= d < 2^53 (|transit difference| in
+   RTP units; below 2^33 in the code) and clock rate 0 < rate < 2^53: the executable step is finite,
+   NON-NEGATIVE, again at most 2^54 (the hypotheses are an invariant, and 0.0 satisfies them), and within
+   2^-52 * (d/rate + J) + 2^-1072 of the exact rational step J + (d/rate - J)/16 *)
+Theorem C19_inbound_jitter_step_nonneg_bounded_accurate : forall rate j d,
+  0 <= d < 9007199254740992 -> 0 < rate < 9007199254740992 ->
+  fin j -> (0 <= FR j <= 18014398509481984)%R ->
+  let J' := sk_jitter rate j d in
+  fin J' /\ (0 <= FR J' <= 18014398509481984)%R /\
+  (Rabs (FR J' - (FR j + (IZR d / IZR rate - FR j) / 16))
+    <= / 4503599627370496 * (IZR d / IZR rate + FR j) + bpow radix2 (-1072))%R.
+Proof. exact sk_jitter_step. Qed.
+Print Assumptions C19_inbound_jitter_step_nonneg_bounded_accurate.
+
+(* the executable step IS the real-number model with one binary64 rounding per float operation *)
+Theorem C19_inbound_jitter_kernel_is_real_model : forall rate j d,
+  0 <= d < 9007199254740992 -> 0 < rate < 9007199254740992 ->
+  fin j -> (0 <= FR j <= 18014398509481984)%R ->
+  fin (sk_jitter rate j d) /\ FR (sk_jitter rate j d) = sjitR (FR j) rate d.
+Proof. exact sk_jitter_link. Qed.
+Print Assumptions C19_inbound_jitter_kernel_is_real_model.
